@@ -185,6 +185,20 @@ def gen_case(rng):
         tail_missing = rng.random() < 0.5
         idmode = rng.choice(["pos", "pos", "pos", "perm", "shift"])
         vals = ["t%d" % i for i in range(n)] if rng.random() < 0.8 else [10 + i for i in range(n)]
+        # falsy-but-valid values (int 0, '', False are int / str: they count) at the first / middle / last position;
+        # a non-integral float is neither int nor str: never matched
+        falsy_pos = []
+        if rng.random() < 0.55:
+            pool = [rng.choice([0, False]), ""]
+            rng.shuffle(pool)
+            spots = rng.sample([0, n // 2, n - 1], rng.randint(1, 2))
+            for pos_, fv in zip(dict.fromkeys(spots), pool):
+                vals[pos_] = fv
+                falsy_pos.append(pos_)
+        if rng.random() < 0.08:
+            k_ = rng.randrange(n)
+            if k_ not in falsy_pos:
+                vals[k_] = 1.5
         ids = list(range(n))
         if idmode == "perm":
             rng.shuffle(ids)
@@ -210,7 +224,7 @@ def gen_case(rng):
             s_counts.append(rng.randint(0, 3))
         resps = [cube(s_els, s_counts, None)]
         for _ in range(rng.randint(1, 2)):
-            present = [i for i in range(n) if rng.random() < 0.6]
+            present = [i for i in range(n) if rng.random() < 0.6 or (i in falsy_pos and rng.random() < 0.8)]
             if rng.random() < 0.12:
                 present = list(range(n))        # same length: not augmented
             f_vals = [vals[i] for i in present]
@@ -467,6 +481,8 @@ def evaluate(case, louts, ctx):
             findings.append({"kind": "model", "locus": "seam.cubeset.part_counts.sets", "detail": "impl=%s model=%s" % (_short(sets), _short(lsets))})
     # -- property-level checks (no model involved) ---------------------------------------
     _spec_forms(case, findings)
+    if fam == "augment" and not isinstance(cubes, dict):
+        _spec_augment_labels(case, cubes, findings)
     if not isinstance(cubes, dict):
         parts = _impl_raw(lambda: [c.partitions for c in cubes])
         sets = _impl_raw(lambda: cs.partition_sets)
@@ -537,6 +553,40 @@ def _spec_forms(case, findings):
     if not ok:
         findings.append({"kind": "spec", "locus": "cubeset.response_forms.partition_sets",
                          "detail": "text / envelope responses vs the same plain dicts%s: forms=%s plain=%s" % (where, _short(a), _short(b))})
+
+
+def _spec_augment_labels(case, cubes, findings):
+    """an augmented single-column filter cube shows, on the row of every summary LABEL, the filter cube's own count for that
+    label, and 0 on the rows it did not have (judged where the summary's ids are its positions, the filter's labels are int /
+    str labels of the summary in the summary's order)"""
+    rs = [_plain(r) for r in case["responses"]]
+
+    def els(r):
+        return r["result"]["dimensions"][0]["type"]["elements"]
+
+    def is_label(v):
+        return isinstance(v, (int, str))       # (bool is an int)
+    S = els(rs[0])
+    s_valid = [e for e in S if not isinstance(e["value"], dict)]
+    if any(e["id"] != i for i, e in enumerate(s_valid)) or not all(is_label(e["value"]) for e in s_valid):
+        return
+    s_vals = [e["value"] for e in s_valid]
+    for j in range(1, len(rs)):
+        r = rs[j]
+        if not r["result"].get("is_single_col_cube") or "count" not in r["result"]["measures"]:
+            continue
+        if len(r["result"]["counts"]) == len(rs[0]["result"]["counts"]):
+            continue
+        f_valid = [e for e in els(r) if not isinstance(e["value"], dict)]
+        f_vals = [e["value"] for e in f_valid]
+        if [v for v in s_vals if v in f_vals] != f_vals:
+            continue        # a label unknown to the summary, or another order: outside the stated behaviour
+        own = dict((repr(v), c) for v, c in zip(f_vals, r["result"]["counts"]))
+        exp = [own.get(repr(v), 0) for v in s_vals]
+        got = _impl(lambda: list(cubes[j]._cube_response["result"]["counts"]))
+        if not isinstance(got, list) or jcanon(got[: len(exp)]) != jcanon(exp) or any(x != 0 for x in got[len(exp):]):
+            findings.append({"kind": "spec", "locus": "cubeset.augment.by_label",
+                             "detail": "cube %d: labels %r own counts %r -> expected %r on summary rows %r, got %r" % (j, f_vals, r["result"]["counts"], exp, s_vals, got)})
 
 
 def _spec_alias(case, cubes, findings):
